@@ -1,7 +1,14 @@
 //! The token scheduler for caller threads (DESIGN.md 3.3) and the extern symbol that the
 //! cfg-guarded hooks in /repo call.
+//!
+//! Simulated threads are real OS threads; exactly one holds the token and runs. At every yield
+//! point (an intercepted libc call, or a hook site inside avra_lib) the holder asks the strategy
+//! who runs next and, if it is someone else, hands the token over and parks. Every decision is
+//! logged; a replay follows the log instead of the strategy.
 
+use crate::rng::Rng;
 use std::sync::atomic::{AtomicUsize, Ordering};
+use std::sync::{Arc, Condvar, Mutex};
 
 /// fn(site) installed by the multibuild engine while a scheduled run is in progress; 0 = none.
 pub static HOOK_SINK: AtomicUsize = AtomicUsize::new(0);
@@ -14,4 +21,311 @@ pub extern "C" fn avra_rs_verif_yield(site: u32) {
         let f: fn(u32) = unsafe { std::mem::transmute::<usize, fn(u32)>(h) };
         crate::simlibc::bypass(|| f(site));
     }
+}
+
+pub const SITE_OP_BOUNDARY: u32 = 0;
+
+#[derive(Clone, Debug)]
+pub enum Strategy {
+    /// whole operations, never a switch inside one
+    Sequential,
+    /// any runnable thread at every point
+    Uniform,
+    /// switch with probability num/1000
+    Sticky(u32),
+    /// random priorities with `d` priority-change points among the first `horizon` decisions
+    Pct { d: u32, horizon: u32 },
+    /// follow a recorded decision list
+    Replay(Vec<u8>),
+}
+
+pub struct State {
+    pub current: usize,
+    pub parked: Vec<bool>,
+    pub finished: Vec<bool>,
+    pub foreign_blocked: Vec<bool>,
+    pub decisions: Vec<u8>,
+    pub strategy: Strategy,
+    pub rng: Rng,
+    pub event_no: u64,
+    pub progress: u64,
+    pub switches: u64,
+    /// switches by the site class the *outgoing* thread was at
+    pub switch_sites: std::collections::BTreeMap<u32, u64>,
+    pub prio: Vec<u32>,
+    pub change_points: Vec<u64>,
+    pub replay_pos: usize,
+    pub replay_divergences: u64,
+    pub interleaving_hash: u64,
+    pub foreign_events: u64,
+}
+
+pub struct Sched {
+    pub st: Mutex<State>,
+    pub cv: Condvar,
+    pub n: usize,
+}
+
+thread_local! {
+    static MY_TID: std::cell::Cell<usize> = const { std::cell::Cell::new(usize::MAX) };
+}
+
+static CURRENT_SCHED: Mutex<Option<Arc<Sched>>> = Mutex::new(None);
+
+fn sink(site: u32) {
+    let s = CURRENT_SCHED.lock().unwrap_or_else(|e| e.into_inner()).clone();
+    if let Some(s) = s {
+        let tid = MY_TID.with(|t| t.get());
+        if tid != usize::MAX {
+            s.yield_point(tid, site);
+        }
+    }
+}
+
+impl Sched {
+    pub fn new(n: usize, strategy: Strategy, seed: u64) -> Arc<Sched> {
+        let mut rng = Rng::new(seed);
+        let mut prio: Vec<u32> = (0..n as u32).map(|i| i + 100).collect();
+        rng.shuffle(&mut prio);
+        let mut change_points = vec![];
+        if let Strategy::Pct { d, horizon } = &strategy {
+            for _ in 0..*d {
+                change_points.push(rng.below(*horizon as u64 + 1));
+            }
+            change_points.sort();
+        }
+        Arc::new(Sched {
+            st: Mutex::new(State {
+                current: usize::MAX,
+                parked: vec![false; n],
+                finished: vec![false; n],
+                foreign_blocked: vec![false; n],
+                decisions: vec![],
+                strategy,
+                rng,
+                event_no: 0,
+                progress: 0,
+                switches: 0,
+                switch_sites: Default::default(),
+                prio,
+                change_points,
+                replay_pos: 0,
+                replay_divergences: 0,
+                interleaving_hash: 0xcbf29ce484222325,
+                foreign_events: 0,
+            }),
+            cv: Condvar::new(),
+            n,
+        })
+    }
+
+    pub fn install(self: &Arc<Sched>) {
+        *CURRENT_SCHED.lock().unwrap_or_else(|e| e.into_inner()) = Some(self.clone());
+        HOOK_SINK.store(sink as usize, Ordering::Release);
+        crate::simlibc::YIELD_HOOK.store(sink as usize, Ordering::Release);
+    }
+
+    pub fn uninstall() {
+        HOOK_SINK.store(0, Ordering::Release);
+        crate::simlibc::YIELD_HOOK.store(0, Ordering::Release);
+        *CURRENT_SCHED.lock().unwrap_or_else(|e| e.into_inner()) = None;
+    }
+
+    /// Called by a simulated thread first: parks until it is given the token.
+    pub fn enter(&self, tid: usize) {
+        MY_TID.with(|t| t.set(tid));
+        let mut g = self.st.lock().unwrap_or_else(|e| e.into_inner());
+        g.parked[tid] = true;
+        self.cv.notify_all();
+        while g.current != tid {
+            g = self.cv.wait(g).unwrap_or_else(|e| e.into_inner());
+        }
+        g.parked[tid] = false;
+        g.foreign_blocked[tid] = false;
+    }
+
+    /// Give the token to the first thread once all have parked (driver thread).
+    pub fn start(&self) {
+        let mut g = self.st.lock().unwrap_or_else(|e| e.into_inner());
+        while !g.parked.iter().all(|p| *p) {
+            g = self.cv.wait(g).unwrap_or_else(|e| e.into_inner());
+        }
+        let next = Self::choose(&mut g, usize::MAX, SITE_OP_BOUNDARY, self.n);
+        g.current = next;
+        self.cv.notify_all();
+    }
+
+    pub fn event_no(&self) -> u64 {
+        self.st.lock().unwrap_or_else(|e| e.into_inner()).event_no
+    }
+
+    fn runnable(g: &State, n: usize) -> Vec<usize> {
+        (0..n).filter(|t| !g.finished[*t] && !g.foreign_blocked[*t]).collect()
+    }
+
+    /// The strategy: who runs next. `me` = the thread at the yield point (usize::MAX = nobody).
+    fn choose(g: &mut State, me: usize, site: u32, n: usize) -> usize {
+        let cands = Self::runnable(g, n);
+        if cands.is_empty() {
+            return usize::MAX;
+        }
+        let me_ok = cands.contains(&me);
+        let pick = match &g.strategy {
+            Strategy::Replay(log) => {
+                let want = log.get(g.replay_pos).copied();
+                g.replay_pos += 1;
+                match want {
+                    Some(w) if cands.contains(&(w as usize)) => w as usize,
+                    _ => {
+                        g.replay_divergences += 1;
+                        if me_ok {
+                            me
+                        } else {
+                            cands[0]
+                        }
+                    }
+                }
+            }
+            Strategy::Sequential => {
+                if site != SITE_OP_BOUNDARY && me_ok {
+                    me
+                } else {
+                    let i = g.rng.usize(cands.len());
+                    cands[i]
+                }
+            }
+            Strategy::Uniform => {
+                let i = g.rng.usize(cands.len());
+                cands[i]
+            }
+            Strategy::Sticky(p) => {
+                let p = *p as u64;
+                if me_ok && !g.rng.chance(p, 1000) {
+                    me
+                } else {
+                    let i = g.rng.usize(cands.len());
+                    cands[i]
+                }
+            }
+            Strategy::Pct { .. } => {
+                let k = g.decisions.len() as u64;
+                while let Some(cp) = g.change_points.first().copied() {
+                    if cp <= k {
+                        g.change_points.remove(0);
+                        if me_ok {
+                            // the running thread drops below everyone
+                            let low = g.prio.iter().copied().min().unwrap_or(1).saturating_sub(1);
+                            g.prio[me] = low;
+                        }
+                    } else {
+                        break;
+                    }
+                }
+                *cands.iter().max_by_key(|t| g.prio[**t]).unwrap()
+            }
+        };
+        g.decisions.push(pick as u8);
+        g.interleaving_hash = (g.interleaving_hash ^ ((pick as u64) << 32 | site as u64)).wrapping_mul(0x100000001b3);
+        pick
+    }
+
+    pub fn yield_point(&self, tid: usize, site: u32) {
+        let mut g = self.st.lock().unwrap_or_else(|e| e.into_inner());
+        g.event_no += 1;
+        g.progress += 1;
+        if g.current != tid {
+            // this thread was declared foreign-blocked and lost the token while it was stuck in
+            // a foreign lock; now it has reached a yield point: park like everybody else
+            g.foreign_events += 1;
+            g.foreign_blocked[tid] = false;
+            g.parked[tid] = true;
+            self.cv.notify_all();
+            while g.current != tid {
+                g = self.cv.wait(g).unwrap_or_else(|e| e.into_inner());
+            }
+            g.parked[tid] = false;
+            return;
+        }
+        let next = Self::choose(&mut g, tid, site, self.n);
+        if next != tid && next != usize::MAX {
+            g.switches += 1;
+            *g.switch_sites.entry(site).or_insert(0) += 1;
+            g.current = next;
+            g.parked[tid] = true;
+            self.cv.notify_all();
+            while g.current != tid {
+                g = self.cv.wait(g).unwrap_or_else(|e| e.into_inner());
+            }
+            g.parked[tid] = false;
+        }
+    }
+
+    pub fn finish(&self, tid: usize) {
+        let mut g = self.st.lock().unwrap_or_else(|e| e.into_inner());
+        g.finished[tid] = true;
+        g.progress += 1;
+        if g.current == tid {
+            let next = Self::choose(&mut g, usize::MAX, SITE_OP_BOUNDARY, self.n);
+            g.current = next;
+        }
+        self.cv.notify_all();
+    }
+
+    /// Driver thread: wait for all threads; detect a token holder stuck in a foreign lock.
+    /// Wall time decides only *when* this is noticed, never who is chosen.
+    pub fn supervise(&self, overall_timeout_secs: f64) -> Result<(), String> {
+        let start = std::time::Instant::now();
+        let mut last_progress = 0u64;
+        let mut last_change = std::time::Instant::now();
+        loop {
+            let mut g = self.st.lock().unwrap_or_else(|e| e.into_inner());
+            if g.finished.iter().all(|f| *f) {
+                return Ok(());
+            }
+            if g.progress != last_progress {
+                last_progress = g.progress;
+                last_change = std::time::Instant::now();
+            } else if last_change.elapsed().as_secs_f64() > 2.0 {
+                let holder = g.current;
+                if holder < self.n && !g.finished[holder] {
+                    // the holder neither yields nor finishes: assume it blocks on a lock that a
+                    // parked thread holds; let the lowest-numbered parked thread run
+                    if let Some(next) = (0..self.n).find(|t| *t != holder && g.parked[*t] && !g.finished[*t]) {
+                        g.foreign_blocked[holder] = true;
+                        g.foreign_events += 1;
+                        g.current = next;
+                        g.decisions.push(next as u8);
+                        self.cv.notify_all();
+                        last_change = std::time::Instant::now();
+                    }
+                }
+            }
+            if start.elapsed().as_secs_f64() > overall_timeout_secs {
+                return Err(format!("no completion within {} s (holder {}, progress {})", overall_timeout_secs, g.current, g.progress));
+            }
+            let (g2, _) = self.cv.wait_timeout(g, std::time::Duration::from_millis(50)).unwrap_or_else(|e| e.into_inner());
+            drop(g2);
+        }
+    }
+}
+
+pub fn rle(d: &[u8]) -> Vec<(u8, u32)> {
+    let mut out: Vec<(u8, u32)> = vec![];
+    for x in d {
+        match out.last_mut() {
+            Some((t, c)) if *t == *x => *c += 1,
+            _ => out.push((*x, 1)),
+        }
+    }
+    out
+}
+
+pub fn unrle(r: &[(u8, u32)]) -> Vec<u8> {
+    let mut out = vec![];
+    for (t, c) in r {
+        for _ in 0..*c {
+            out.push(*t);
+        }
+    }
+    out
 }
